@@ -17,7 +17,7 @@ import (
 )
 
 type SolverStats struct {
-	Queries, Sat, Unsat, Unknown, Errors int64
+	Queries, Sat, Unsat, Unknown, Errors, Fallbacks int64
 	Nanos                                int64
 	CrossChecked, CrossAgree, CrossTimeout, CrossDisagree int64
 	CrossNanos                           map[string]int64
@@ -36,6 +36,9 @@ type Solver struct {
 	ctx        *Ctx
 	em         *Emitter
 	transcript strings.Builder // level-0 text of this session (for cross-checks / dumps)
+	buf        strings.Builder // level-0 text not yet sent
+	needReset  bool
+	oneShot    bool
 	asserted   int
 	lastErr    string
 }
@@ -106,15 +109,29 @@ func (s *Solver) Reset() {
 		s.start()
 		return
 	}
-	s.send("(reset)\n(set-option :produce-models true)\n")
+	// lazy: nothing is sent until the first query of the new session
+	s.needReset = true
+	s.buf.Reset()
 	s.em = NewEmitter(s.ctx, s.intMode)
 	s.transcript.Reset()
 	s.asserted = 0
+	s.lastErr = ""
 }
 
 func (s *Solver) level0(txt string) {
 	s.transcript.WriteString(txt)
-	s.send(txt)
+	s.buf.WriteString(txt)
+}
+
+func (s *Solver) flush() {
+	if s.needReset {
+		s.send("(reset)\n(set-option :produce-models true)\n")
+		s.needReset = false
+	}
+	if s.buf.Len() > 0 {
+		s.send(s.buf.String())
+		s.buf.Reset()
+	}
 }
 
 // Assert adds t permanently to the session.
@@ -168,6 +185,27 @@ func (s *Solver) readSexp() (string, error) {
 // Check decides satisfiability of (session assertions ∧ extras). Result: "sat", "unsat", "unknown", "error".
 // With wantModel and sat, a model for all declared vars is returned.
 func (s *Solver) Check(wantModel bool, extras ...*Term) (string, Model) {
+	if s.oneShot || s.kind == "cvc5" {
+		return s.checkOnce(wantModel, s.oneShot, s.timeoutMs, extras...)
+	}
+	quick := 1500
+	if quick > s.timeoutMs {
+		quick = s.timeoutMs
+	}
+	r, m := s.checkOnce(wantModel, false, quick, extras...)
+	if r == "unknown" && s.timeoutMs > quick {
+		// the incremental core gave up: decide the same query non-incrementally (full preprocessing)
+		atomic.AddInt64(&gStats.Fallbacks, 1)
+		r, m = s.checkOnce(wantModel, true, s.timeoutMs, extras...)
+		// the incremental session is gone; replay the transcript lazily before the next query
+		s.needReset = true
+		s.buf.Reset()
+		s.buf.WriteString(s.transcript.String())
+	}
+	return r, m
+}
+
+func (s *Solver) checkOnce(wantModel bool, oneShot bool, toMs int, extras ...*Term) (string, Model) {
 	t0 := time.Now()
 	var refs []string
 	for _, t := range extras {
@@ -175,7 +213,22 @@ func (s *Solver) Check(wantModel bool, extras ...*Term) (string, Model) {
 	}
 	s.level0(s.em.Take())
 	var sb strings.Builder
-	sb.WriteString("(push 1)\n")
+	if oneShot {
+		// non-incremental: z3's incremental core is much weaker (floating point, bvurem, wide ite chains)
+		s.buf.Reset()
+		s.needReset = true
+		sb.WriteString("(reset)\n(set-option :produce-models true)\n")
+		if s.kind != "cvc5" {
+			fmt.Fprintf(&sb, "(set-option :timeout %d)\n", toMs)
+		}
+		sb.WriteString(s.transcript.String())
+	} else {
+		s.flush()
+		if s.kind != "cvc5" {
+			fmt.Fprintf(&sb, "(set-option :timeout %d)\n", toMs)
+		}
+		sb.WriteString("(push 1)\n")
+	}
 	for _, r := range refs {
 		fmt.Fprintf(&sb, "(assert %s)\n", r)
 	}
@@ -218,7 +271,9 @@ func (s *Solver) Check(wantModel bool, extras ...*Term) (string, Model) {
 	if res == "sat" && wantModel {
 		m = s.getModel()
 	}
-	s.send("(pop 1)\n")
+	if !oneShot {
+		s.send("(pop 1)\n")
+	}
 	atomic.AddInt64(&gStats.Queries, 1)
 	switch res {
 	case "sat":
